@@ -210,22 +210,40 @@ def sendFile (e : Env) (o : O) : O × Bool :=
   let o := { o with attempts := o.attempts + 1, heap := o.heap.log .wfile }
   (o, !(e.failAt ≠ 0 && o.attempts ≥ e.failAt))
 
+/-- ReadFrom, first paragraph: conn.Write(*res.buffer); Free; nil — if the head buffer is still there -/
+def sendHeadFirst (e : Env) (o : O) : O × Bool :=
+  match o.buffer with
+  | some (id, bl) =>
+    let (o, ok) := send e o (some id) bl
+    ({ o.free id with buffer := none }, ok)
+  | none => (o, true)
+
+/-- ReadFrom, second paragraph: the body buffer goes out first and is resliced to [:0] -/
+def sendBodyFirst (e : Env) (o : O) : O × Bool :=
+  match o.bodyBuffer with
+  | some (id, bl) =>
+    if bl > 0 then
+      let (o, ok) := send e o (some id) bl
+      ({ o.touch id with bodyBuffer := some (id, 0) }, ok)
+    else (o, true)
+  | none => (o, true)
+
+def readCopy (e : Env) (o : O) (k : RKind) (n : Nat) : O × WRes :=
+  if k == .limited && n == 0 then (o, .ok 0) else
+  if e.sendfile && k != .plain then
+    let (o, ok) := sendFile e o
+    if ok then (o, .ok n) else (o, .errConn)
+  else
+    let (o, w, ok) := copyLoop e (n + 1) o n 0
+    if ok then (o, .ok w) else (o, .errCopy w)
+
 /-- Response.ReadFrom -/
 def readFrom (e : Env) (o : O) (k : RKind) (n : Nat) : O × WRes :=
   let o := encodeHead e o
-  match o.buffer with
-  | none => (o, .panic)
-  | some (id, bl) =>
-    let (o, ok) := send e o (some id) bl
-    let o := { o.free id with buffer := none }
-    if !ok then (o, .errConn) else
-    if k == .limited && n == 0 then (o, .ok 0) else
-    if e.sendfile && k != .plain then
-      let (o, ok) := sendFile e o
-      if ok then (o, .ok n) else (o, .errConn)
-    else
-      let (o, w, ok) := copyLoop e (n + 1) o n 0
-      if ok then (o, .ok w) else (o, .errCopy w)
+  let p := sendHeadFirst e o
+  if !p.2 then (p.1, .errConn) else
+  let q := sendBodyFirst e p.1
+  if !q.2 then (q.1, .errConn) else readCopy e q.1 k n
 
 /-- Flush, first paragraph: the head buffer -/
 def flushBuf (e : Env) (o : O) : O :=
@@ -364,6 +382,10 @@ def flushEnv (g : Cfg) (r : R) : Env :=
   { failAt := g.failAt, sendfile := g.sendfile, chunked := r1.chunked, hl := (g.head r1).length,
     trailerEmpty := r2.trailer.isEmpty, lastLen := (Resp.lastChunk r2).length }
 
+/-- Flush encodes the head after its close-delimiting decision -/
+def flushOpEnv (g : Cfg) (r : R) : Env :=
+  { flushEnv g r with hl := (g.head (Resp.markDelim (Resp.checkChunked g (Resp.writeHeader200 r)))).length }
+
 def readFromEnv (g : Cfg) (r : R) : Env :=
   let r1 := { Resp.writeHeader200 r with hasBody := true }
   { failAt := g.failAt, sendfile := g.sendfile, hl := (g.head r1).length }
@@ -372,7 +394,7 @@ def readFromEnv (g : Cfg) (r : R) : Env :=
 do not touch pooled buffers) -/
 def eraseOp (g : Cfg) (r : R) : Resp.Op → Option (Env × Op)
   | .write d => some (writeEnv g r, .write d.length)
-  | .flush => some (flushEnv g r, .flush)
+  | .flush => some (flushOpEnv g r, .flush)
   | .readFrom k d => some (readFromEnv g r, .readFrom k d.length)
   | _ => none
 
